@@ -2,7 +2,8 @@
 Codec lab (DESIGN.md §3): materialise a DSDL universe, run nnvg from the tree under test for C / C++ / Python under an
 option set, emit + build the per-type harness (optionally ASan+UBSan+LSan), and drive it with command files.
 
-A *target key* is a string: "c|<endian>|<asserts 0/1>|<override 0/1>", "cpp|<std>|<endian>|<asserts 0/1>|<container>", "py".
+A *target key* is a string: "c|<endian>|<asserts 0/1>|<override 0/1>[|<mods>]", "cpp|<std>|<endian>|<asserts 0/1>|<container>[|<mods>]",
+"py".  mods = comma-separated: "nofloat" (--omit-float-serialization-support; types with a float anywhere are left out).
 """
 from __future__ import annotations
 
@@ -43,9 +44,9 @@ class LabError(core.HarnessError):
 def parse_key(key: str) -> dict:
     p = key.split("|")
     if p[0] == "c":
-        return {"lang": "c", "endian": p[1], "asserts": p[2] == "1", "override": p[3] == "1"}
+        return {"lang": "c", "endian": p[1], "asserts": p[2] == "1", "override": p[3] == "1", "mods": set(p[4].split(",")) if len(p) > 4 else set()}
     if p[0] == "cpp":
-        return {"lang": "cpp", "std": p[1], "endian": p[2], "asserts": p[3] == "1", "container": p[4] if len(p) > 4 else "vector"}
+        return {"lang": "cpp", "std": p[1], "endian": p[2], "asserts": p[3] == "1", "container": p[4] if len(p) > 4 else "vector", "mods": set(p[5].split(",")) if len(p) > 5 else set()}
     return {"lang": "py"}
 
 
@@ -68,6 +69,42 @@ class Lab:
     def close(self):
         if self.own:
             shutil.rmtree(self.dir, ignore_errors=True)
+
+    # ----------------------------------------------------------------------------------------------------- skipped types per key
+    def float_excluded(self) -> typing.Set[int]:
+        """Codec types with a floating-point field anywhere in their dependency closure (incl. the other half of a service)."""
+        memo: typing.Dict[int, bool] = {}
+
+        def has_float(t) -> bool:
+            if isinstance(t, pydsdl.FloatType):
+                return True
+            if isinstance(t, pydsdl.ArrayType):
+                return has_float(t.element_type)
+            if isinstance(t, pydsdl.CompositeType):
+                t = inner(t)
+                if id(t) not in memo:
+                    memo[id(t)] = False
+                    memo[id(t)] = any(has_float(f.data_type) for f in t.fields_except_padding)
+                return memo[id(t)]
+            return False
+
+        out = set()
+        for i, ct in enumerate(self.ctypes):
+            t = inner(ct)
+            svc = emit_c.service_of(t, self.top) if t.has_parent_service else None
+            if has_float(ct) or (svc is not None and (has_float(svc.request_type) or has_float(svc.response_type))):
+                out.add(i)
+        return out
+
+    def skipped(self, key: str) -> typing.Set[int]:
+        """Codec types that are not part of the harness of this target key."""
+        o = parse_key(key)
+        out: typing.Set[int] = set()
+        if o["lang"] == "cpp" and o["std"] in ALLOC_STDS:
+            out |= self.alloc_excluded()
+        if "nofloat" in o.get("mods", ()):
+            out |= self.float_excluded()
+        return out
 
     # ----------------------------------------------------------------------------------------------------- allocator flavours
     def alloc_excluded(self) -> typing.Set[int]:
@@ -135,6 +172,8 @@ class Lab:
                 argv_common += ["--enable-serialization-asserts"]
             if o.get("override"):
                 argv_common += ["--enable-override-variable-array-capacity"]
+            if "nofloat" in o["mods"]:
+                argv_common += ["--omit-float-serialization-support"]
         if o["lang"] == "cpp":
             argv_common += ["--language-standard", o["std"]]
             if o.get("container") == "minivec":
@@ -193,7 +232,8 @@ class Lab:
         flags = SAN_FLAGS if self.sanitize else PLAIN_FLAGS
         if o["lang"] == "c":
             src = self.dir / f"h_{tag}.c"
-            src.write_text(emit_c.CEmitter(self.ctypes, self.top).emit(self.header_paths(".h")))
+            skip = self.skipped(key)
+            src.write_text(emit_c.CEmitter(self.ctypes, self.top, skip=skip).emit(self.codec_header_paths(".h", skip) if skip else self.header_paths(".h")))
             exe = self.dir / f"h_{tag}"
             cmd = [CLANG, "-std=c11", *flags, "-Wall", "-Wno-unused-function", "-Wno-deprecated-declarations", "-I", str(gen), str(src), "-o", str(exe), "-lm"]
             if o["asserts"]:
@@ -202,11 +242,11 @@ class Lab:
                 cmd.insert(1, f"-D{macro}={val}")
         else:
             src = self.dir / f"h_{tag}.cpp"
+            skip = self.skipped(key)
             if o["std"] in ALLOC_STDS:
-                skip = self.alloc_excluded()
                 src.write_text(emit_cpp.CppEmitter(self.ctypes, self.top, alloc=True, skip=skip).emit(self.codec_header_paths(".hpp", skip), CETL_OVERLOADS))
             else:
-                src.write_text(emit_cpp.CppEmitter(self.ctypes, self.top).emit(self.header_paths(".hpp"), MINIVEC_OVERLOADS if o.get("container") == "minivec" else ""))
+                src.write_text(emit_cpp.CppEmitter(self.ctypes, self.top, skip=skip).emit(self.codec_header_paths(".hpp", skip) if skip else self.header_paths(".hpp"), MINIVEC_OVERLOADS if o.get("container") == "minivec" else ""))
             exe = self.dir / f"h_{tag}"
             std = {"c++17-pmr": "c++17", "cetl++14-17": "c++14"}.get(o["std"], o["std"])
             cmd = [CLANGXX, f"-std={std}", *flags, "-Wall", "-Wno-unused-function", "-Wno-deprecated-declarations", "-I", str(gen), *(["-isystem", str(STANDIN)] if o["std"] in ALLOC_STDS else []), str(src), "-o", str(exe)]
